@@ -469,7 +469,7 @@ def check_identifier_paths(ctx):
         g = load_dialect(ctx.src, d)
         from ..actions import kinds_for
         ak = kinds_for(ctx.src, d)
-        numeric = {nt for nt, v in ak.nt.items() if v.kinds and set(v.kinds) <= {'int', 'float'}}
+        numeric = {nt for nt, v in ak.nt.items() if v.kinds and set(v.kinds) <= {'int', 'float', 'ext:Decimal'}}
         ctx.need({'integer', 'float'} <= numeric, f'{d}: the integer / float nonterminals are not recognised as numeric ({sorted(numeric)})')
         for p in g.productions[1:]:
             if p.func is None or p.from_star:
